@@ -266,6 +266,29 @@ Proof.
   - exists 10%nat. split; vm_compute; reflexivity.
 Qed.
 
+(* ------------------------------------------------------------------ oneOf of plain scalar arms -> untagged enums
+   (corpus/convert/enum_untagged_example.json; T_unt is the REAL type space, variants Variant0, Variant1, ...) *)
+Definition D_unt : defs := [([85]%N, (SObj None None None None (mkNumv None None None None None) (mkStrv None None None) ItemsAbsent (@nil schema) None None None false (@nil (ustring * schema)) (@nil ustring) None None None None None (Some [(SObj (Some [TString]) None None None (mkNumv None None None None None) (mkStrv None None None) ItemsAbsent (@nil schema) None None None false (@nil (ustring * schema)) (@nil ustring) None None None None None None None None None None); (SObj (Some [TInteger]) (Some [105; 110; 116; 51; 50]%N) None None (mkNumv None None None None None) (mkStrv None None None) ItemsAbsent (@nil schema) None None None false (@nil (ustring * schema)) (@nil ustring) None None None None None None None None None None); (SObj (Some [TBoolean]) None None None (mkNumv None None None None None) (mkStrv None None None) ItemsAbsent (@nil schema) None None None false (@nil (ustring * schema)) (@nil ustring) None None None None None None None None None None)]) None None None None)); ([87]%N, (SObj (Some [TObject]) None None None (mkNumv None None None None None) (mkStrv None None None) ItemsAbsent (@nil schema) None None None false [([110]%N, (SObj None None None None (mkNumv None None None None None) (mkStrv None None None) ItemsAbsent (@nil schema) None None None false (@nil (ustring * schema)) (@nil ustring) None None None None None (Some [(SObj (Some [TNumber]) None None None (mkNumv None None None None None) (mkStrv None None None) ItemsAbsent (@nil schema) None None None false (@nil (ustring * schema)) (@nil ustring) None None None None None None None None None None); (SObj (Some [TString]) None None None (mkNumv None None None None None) (mkStrv None None None) ItemsAbsent (@nil schema) None None None false (@nil (ustring * schema)) (@nil ustring) None None None None None None None None None None)]) None None None None)); ([117; 115]%N, (SObj (Some [TArray]) None None None (mkNumv None None None None None) (mkStrv None None None) ItemsSingle [(SObj None None None None (mkNumv None None None None None) (mkStrv None None None) ItemsAbsent (@nil schema) None None None false (@nil (ustring * schema)) (@nil ustring) None None None None None None None (Some [85]%N) None None)] None None None false (@nil (ustring * schema)) (@nil ustring) None None None None None None None None None None))] [[110]%N; [117; 115]%N] None None None None None None None None None None))].
+Definition T_unt : space := (mkSpace [(1%N, (mkEntry (DEnum [85]%N None TagUntagged [(mkVariant [86; 97; 114; 105; 97; 110; 116; 48]%N [86; 97; 114; 105; 97; 110; 116; 48]%N (VItem 3%N)); (mkVariant [86; 97; 114; 105; 97; 110; 116; 49]%N [86; 97; 114; 105; 97; 110; 116; 49]%N (VItem 4%N)); (mkVariant [86; 97; 114; 105; 97; 110; 116; 50]%N [86; 97; 114; 105; 97; 110; 116; 50]%N (VItem 5%N))] false [UntaggedFromStr; UntaggedDisplay]) (@nil ustring))); (2%N, (mkEntry (DStruct [87]%N None [(mkProp [110]%N RNone PRequired 7%N); (mkProp [117; 115]%N RNone PRequired 8%N)] false) (@nil ustring))); (3%N, (mkEntry DString (@nil ustring))); (4%N, (mkEntry (DInteger [105; 51; 50]%N) (@nil ustring))); (5%N, (mkEntry DBoolean (@nil ustring))); (6%N, (mkEntry (DFloat [102; 54; 52]%N) (@nil ustring))); (7%N, (mkEntry (DEnum [87; 78]%N None TagUntagged [(mkVariant [86; 97; 114; 105; 97; 110; 116; 48]%N [86; 97; 114; 105; 97; 110; 116; 48]%N (VItem 6%N)); (mkVariant [86; 97; 114; 105; 97; 110; 116; 49]%N [86; 97; 114; 105; 97; 110; 116; 49]%N (VItem 3%N))] false [UntaggedFromStr; UntaggedDisplay]) (@nil ustring))); (8%N, (mkEntry (DVec 1%N) (@nil ustring)))] 9%N (mkSettings None (@nil ustring) false [58; 58; 32; 115; 116; 100; 32; 58; 58; 32; 99; 111; 108; 108; 101; 99; 116; 105; 111; 110; 115; 32; 58; 58; 32; 72; 97; 115; 104; 77; 97; 112]%N) false false false false (@nil ustring)).
+Definition v_unt : json := (JObj [([110]%N, (JFlt (Qmake (5)%Z 2%positive))); ([117; 115]%N, (JArr [(JStr [97]%N); (JInt (7)%Z); (JBool true)]))]).
+
+Example C02F_unt_in_frag : in_frag Sanitize.ascii_classes D_unt = true.
+Proof. vm_compute. reflexivity. Qed.
+
+Example C02F_unt_convert : convert_doc Sanitize.ascii_classes D_unt = Some T_unt.
+Proof. vm_compute. reflexivity. Qed.
+
+Example C02F_unt_accepted : exists f, de no_re no_re T_unt f 2%N v_unt <> None.
+Proof.
+  apply (C02F_fragment_sound Sanitize.ascii_classes no_re no_re no_re D_unt T_unt) with (r := [87]%N).
+  - intros f n s _ H. discriminate H.
+  - exact C02F_unt_in_frag.
+  - exact C02F_unt_convert.
+  - vm_compute. right. left. reflexivity.
+  - vm_compute. reflexivity.
+  - exists 8%nat. split; vm_compute; reflexivity.
+Qed.
+
 (* a by-value cycle (needs a Box from break_cycles) is outside the fragment *)
 Example C02F_cycle_out : in_frag Sanitize.ascii_classes D_cycle = false.
 Proof. vm_compute. reflexivity. Qed.
